@@ -29,8 +29,8 @@ import (
 	"runtime"
 	"sort"
 	"strings"
-	"sync/atomic"
 	"sync"
+	"sync/atomic"
 	"time"
 
 	"github.com/golang/snappy"
@@ -49,13 +49,14 @@ import (
 // ------------------------------------------------------------------ request model
 
 type Req struct {
-	ID      int               `json:"id"`
-	Label   string            `json:"label"`
-	Method  string            `json:"method"`
-	Path    string            `json:"path"`
-	Headers map[string]string `json:"headers"`
-	BodyB64 string            `json:"body"`
-	Probe   bool              `json:"probe"`
+	ID       int               `json:"id"`
+	Label    string            `json:"label"`
+	Method   string            `json:"method"`
+	Path     string            `json:"path"`
+	Headers  map[string]string `json:"headers"`
+	BodyB64  string            `json:"body"`
+	Probe    bool              `json:"probe"`
+	TimeoutS int               `json:"timeout_s,omitempty"`
 }
 
 type Resp struct {
@@ -153,7 +154,7 @@ func serve() int {
 			if os.Getenv("C05_DEBUG") != "" {
 				fmt.Fprintf(os.Stderr, "DEBUG %s -> %d %.300s\n", rq.Label, rw.Code, rw.Body.String())
 			}
-		case <-time.After(5 * time.Second):
+		case <-time.After(time.Duration(max(rq.TimeoutS, 5)) * time.Second):
 			rs.Timeout = true
 			a := goroutines()
 			time.Sleep(200 * time.Millisecond)
@@ -921,7 +922,7 @@ func (c *child) send(r Req) (*Resp, bool) {
 			return nil, false
 		}
 		return &rs, true
-	case <-time.After(20 * time.Second):
+	case <-time.After(time.Duration(20+r.TimeoutS) * time.Second):
 		return nil, false
 	}
 }
@@ -1130,6 +1131,24 @@ func run(casesPath, outPath string, seed int64, nmut int) int {
 		small := rq
 		if len(small.BodyB64) > 4000 {
 			small.BodyB64 = small.BodyB64[:4000] + "...(truncated)"
+		}
+		if rs.Timeout && rq.TimeoutS == 0 {
+			// a loaded machine can make an innocent request slow: a hang must reproduce on a fresh child with five times the limit
+			ch.kill()
+			restarts++
+			if ch, err = startChild(); err != nil {
+				infra = append(infra, err.Error())
+				break
+			}
+			ch.send(probe)
+			again := rq
+			again.TimeoutS = 25
+			if rs2, ok2 := ch.send(again); ok2 {
+				if !rs2.Timeout {
+					codes["slow-not-hung:"+routeName]++
+				}
+				rs = rs2
+			}
 		}
 		if rs.Timeout {
 			kind := "blocked"
